@@ -455,12 +455,16 @@ Definition find_notification_data_by_index (c : cfg) (i : N) : N * N :=
   | None => (1, i)              (* attribute_index stays 0 *)
   end.
 
-(* find_notification_data( &var ): walks the DECLARATION ordered list and returns that position as
-   configuration index (DESIGN 7 item 9). [gci] identifies the bound variable. None = invalid *)
+Fixpoint index_of_gci (g : nat) (l : list cinfo) : N :=
+  match l with [] => 0 | x :: t => if Nat.eqb (ci_gci x) g then 0 else 1 + index_of_gci g t end.
+
+(* find_notification_data( &var ): walks the PRIORITY SORTED list (as every consumer does) and returns
+   that position as configuration index (fix of DESIGN 7 item 9; before, the declaration ordered list
+   and ci_pos). [gci] identifies the bound variable. None = invalid *)
 Definition find_notification_data (c : cfg) (gci : nat) : option (N * N) :=
-  match filter (fun x => Nat.eqb (ci_gci x) gci) (cccd_infos c) with
+  match filter (fun x => Nat.eqb (ci_gci x) gci) (sorted_infos c) with
   | x :: _ => match c_value (ci_char x) with
-              | VBind _ _ => Some (ci_first x + 1, ci_pos x)
+              | VBind _ _ => Some (ci_first x + 1, index_of_gci gci (sorted_infos c))
               | _ => None        (* is_this() is false for every other value kind *)
               end
   | [] => None
@@ -473,9 +477,6 @@ Definition find_char_by_uuid (c : cfg) (u : uuid) : option cinfo :=
   | x :: _ => Some x
   | [] => None
   end.
-
-Fixpoint index_of_gci (g : nat) (l : list cinfo) : N :=
-  match l with [] => 0 | x :: t => if Nat.eqb (ci_gci x) g then 0 else 1 + index_of_gci g t end.
 
 Definition find_notification_by_uuid (c : cfg) (u : uuid) : option (N * N) :=
   match find_char_by_uuid c u with
